@@ -854,6 +854,21 @@ def directed_requests(full):
             out += [f"{u}a {t} b", f"{u}(a {t} b)", f"a {t} {u}b", f"({u}a) {t} b"]
         for _, u2 in UNOPS:
             out += [f"{u}{u2}a", f"{u}({u2}a)"]
+    # what the rendering of a child BEGINS with matters to some parents (an f-string field must not begin with `{`,
+    # an attribute of an int literal needs a blank or parentheses, ...): atoms with every kind of first token at the
+    # left edge of every left-recursive slot, at top level and inside f-string fields
+    edge_atoms = ["{x: y}", "{x, y}", "{x for x in y}", "{x: y for x in z}", "{}", "{**x}", "[x]", "(x, y)", "()", "'s'", "b's'",
+                  "f'{x}'", "1", "1.5", "1j", "0x1", "1e5", "...", "None", "x", "-1", "not x", "lambda: x", "x if y else z"]
+    left_slots = [(n, t) for n, t in SLOTS if t.startswith("%s") and n != "top"]
+    outers = ["%s", "f'{%s}'", "f'{%s!r:>5}'", "f\"\"\"{%s}\"\"\"", "f'{%s}{%s}'", "f'a{%s:{%s}}'", "[f'{%s}']"]
+    for atom in edge_atoms:
+        for _, t2 in left_slots:
+            for inner in (fill(t2, "(" + atom + ")"), fill(t2, atom)):
+                for o in outers:
+                    src = o.replace("%s", inner)
+                    t = py_tree(src)
+                    if t is not None and not finding_shapes(t):
+                        out.append(src)
     if full:
         # two levels: slot in slot
         for s1, t1 in SLOTS:
